@@ -81,6 +81,15 @@ def replay_lsq(rec, ctx):
             bad("nnls:reported-residual-inconsistent", f"{rnorm} vs sqrt(objective) {math.sqrt(fr(rec['obj_nnls']))}")
         if (np.asarray(x) < 0).any():
             bad("nnls:negative-solution", str(list(x)))
+    # invert_svd vs the exact minimum-norm solution, for the problem as it is and multiplied by powers of ten
+    if "minnorm" in rec:
+        wantm = [fr(p) for p in rec["minnorm"]]
+        for e in rec["scale_exps"]:
+            sc = 10.0 ** e
+            xm = invert_svd(W * sc, b * sc)
+            if not core.close([float(q) for q in xm], wantm, rtol=1e-8, atol=1e-10):
+                bad(f"svd:not-the-minimum-norm-solution:rank{rec['rank']}:scale1e{e}", f"x = {list(xm)}, exact {wantm}")
+                break
     # invert_svd: minimum-norm least-squares solution, certified by the normal equations and x in the row space of W
     xs = invert_svd(W, b)
     g = W.T @ (W @ xs - b)
@@ -118,6 +127,7 @@ INVARIANT KKTHasSolution
 INVARIANT KKTUnique
 INVARIANT NNLSNotBelowUnconstrained
 INVARIANT NNLSEqualsUncWhenFeasible
+INVARIANT MinNormSolvesNormalEquations
 INVARIANT EmitCase
 """
 
